@@ -101,54 +101,7 @@ func runC07(c *eng.Ctx) {
 	})
 
 	// ---- 1b. a family log is garbage-collected only when every consumer ACKNOWLEDGED (= flushed) everything appended -----------------
-	c.Rule("PROV", "pkg/queue.consumerGroup.IsEmpty{appended <= acknowledged}", func() {
-		f := c.Fn("pkg/queue.consumerGroup.IsEmpty")
-		isCall := func(name string) func(ssa.Value) bool {
-			return func(x ssa.Value) bool {
-				cl, ok := x.(*ssa.Call)
-				if !ok {
-					return false
-				}
-				if cl.Common().IsInvoke() {
-					return cl.Common().Method.Name() == name
-				}
-				return cl.Common().StaticCallee() != nil && baseName(cl.Common().StaticCallee().Name()) == name
-			}
-		}
-		n := 0
-		for i, r := range eng.SuccessReturns(f) {
-			rv := eng.RetVal(r, 0)
-			n++
-			c.Check(eng.DependsOn(rv, isCall("AppendedSeq")) && eng.DependsOn(rv, isCall("AcknowledgedSeq")), fmt.Sprintf("compares-appended-with-acknowledged[%d]", i), r, f,
-				"a consumer group is empty when the queue's appended sequence is not beyond the group's ACKNOWLEDGED sequence (local replication acknowledges only after the flush committed)", "returns "+p.Desc(rv))
-			c.Check(!eng.DependsOn(rv, isCall("ConsumedSeq")) && !eng.DependsOnField(rv, cgT+".consumedSeq"), fmt.Sprintf("not-the-consumed-position[%d]", i), r, f,
-				"the consumed position plays no part: consumed-but-unflushed entries still need the log", "returns "+p.Desc(rv))
-			bo, isB := eng.Unwrap(rv).(*ssa.BinOp)
-			okDir := isB && (bo.Op == token.LEQ && eng.DependsOn(bo.X, isCall("AppendedSeq")) && eng.DependsOn(bo.Y, isCall("AcknowledgedSeq")) ||
-				bo.Op == token.GEQ && eng.DependsOn(bo.Y, isCall("AppendedSeq")) && eng.DependsOn(bo.X, isCall("AcknowledgedSeq")))
-			c.Check(okDir, fmt.Sprintf("direction[%d]", i), r, f, "the test is appended <= acknowledged", "returns "+p.Desc(rv))
-		}
-		c.Check(n == 1, "one-exit", nil, f, "IsEmpty has one result expression", fmt.Sprintf("%d", n))
-		// the expiry decision of a partition consults every consumer group
-		ie := c.Fn("replica.partition.IsExpire")
-		em := c.One(ie, invokeOn("", "IsEmpty"), "consumerGroup.IsEmpty()")
-		names := c.One(ie, invokeOn(".log", "ConsumerGroupNames"), "log.ConsumerGroupNames()")
-		c.Check(eng.DependsOn(eng.CallRecv(em.Instr.(*ssa.Call)), func(x ssa.Value) bool { return x == names.Instr.(ssa.Value) }), "every-group-asked", em.Instr, ie, "each consumer group of the log is asked", "")
-		early := 0
-		for _, e := range eng.EarlyLoopExits(ie) {
-			_ = e
-			early++
-		}
-		c.Check(early == 0, "no-group-skipped", nil, ie, "the loop over the consumer groups has no early exit", fmt.Sprintf("%d early exits", early))
-		expiryNeedsEveryGroupDrained(c)
-		for i, r := range eng.SuccessReturns(ie) {
-			rv := eng.RetVal(r, 0)
-			if k, isC := rv.(*ssa.Const); isC && k.Value != nil && k.Value.String() == "false" {
-				continue
-			}
-			c.Check(eng.DominatedBy(ie, r, []eng.Site{names}, nil), fmt.Sprintf("expired-only-after-asking[%d]", i), r, ie, "a partition is reported expired only after its consumer groups were examined", "")
-		}
-	})
+	c.Rule("PROV", "pkg/queue.consumerGroup.IsEmpty{appended <= acknowledged}", func() { groupEmptyMeansAcknowledged(c) })
 
 	// ---- 2. the data flusher's Close is the kv commit ------------------------------------------------------
 	c.Rule("PASS", "tsdb/memdb.memoryDatabase.FlushFamilyTo{success->Commit}", func() {
@@ -414,6 +367,8 @@ func runC07(c *eng.Ctx) {
 
 	// ---- 9. every chain that reaches a data flush establishes meta -> index -> data ---------------------------------------------
 	c.Rule("ORDER", "index.metricMetaDatabase.Flush{counters<dictionaries}", func() { metaFlushCountersFirst(c) })
+	c.Rule("ORDER", midT+".Flush{postings<series-dictionary}", func() { indexFlushSeriesLast(c) })
+	c.Rule("ORDER", dfT+".WriteRows{acquire<write<complete} / FlushFamilyTo{wait}", func() { writeBracketRule(c) })
 
 	c.Rule("ORDER", "tsdb{flush-chains}", func() {
 		owner(c, "call of dataFamily.flushMemoryDatabase", eng.AnyCallTo(dfT+".flushMemoryDatabase"), []string{dfT + ".Flush", dfT + ".Close"}, 3)
@@ -672,4 +627,55 @@ func setAckIndexOwner(c *eng.Ctx) {
 	}, eng.DescIs("replicaIdx"))
 	c.Check(len(eq) > 0, "ignore-only-next", s.Instr, f, "an undeliverable entry is acknowledged only when it is exactly ack+1 (never skipping unpersisted entries)", "facts: "+strings.Join(facts.Render(fs), " ; "))
 	c.Check(p.Desc(eng.CallArgs(s.Instr.(*ssa.Call))[0]) == "replicaIdx", "ignore-acks-that-entry", s.Instr, f, "the ignored entry's own index is acknowledged", "")
+}
+
+func groupEmptyMeansAcknowledged(c *eng.Ctx) {
+	p := c.P
+	_ = p
+	f := c.Fn("pkg/queue.consumerGroup.IsEmpty")
+	isCall := func(name string) func(ssa.Value) bool {
+		return func(x ssa.Value) bool {
+			cl, ok := x.(*ssa.Call)
+			if !ok {
+				return false
+			}
+			if cl.Common().IsInvoke() {
+				return cl.Common().Method.Name() == name
+			}
+			return cl.Common().StaticCallee() != nil && baseName(cl.Common().StaticCallee().Name()) == name
+		}
+	}
+	n := 0
+	for i, r := range eng.SuccessReturns(f) {
+		rv := eng.RetVal(r, 0)
+		n++
+		c.Check(eng.DependsOn(rv, isCall("AppendedSeq")) && eng.DependsOn(rv, isCall("AcknowledgedSeq")), fmt.Sprintf("compares-appended-with-acknowledged[%d]", i), r, f,
+			"a consumer group is empty when the queue's appended sequence is not beyond the group's ACKNOWLEDGED sequence (local replication acknowledges only after the flush committed)", "returns "+p.Desc(rv))
+		c.Check(!eng.DependsOn(rv, isCall("ConsumedSeq")) && !eng.DependsOnField(rv, cgT+".consumedSeq"), fmt.Sprintf("not-the-consumed-position[%d]", i), r, f,
+			"the consumed position plays no part: consumed-but-unflushed entries still need the log", "returns "+p.Desc(rv))
+		bo, isB := eng.Unwrap(rv).(*ssa.BinOp)
+		okDir := isB && (bo.Op == token.LEQ && eng.DependsOn(bo.X, isCall("AppendedSeq")) && eng.DependsOn(bo.Y, isCall("AcknowledgedSeq")) ||
+			bo.Op == token.GEQ && eng.DependsOn(bo.Y, isCall("AppendedSeq")) && eng.DependsOn(bo.X, isCall("AcknowledgedSeq")))
+		c.Check(okDir, fmt.Sprintf("direction[%d]", i), r, f, "the test is appended <= acknowledged", "returns "+p.Desc(rv))
+	}
+	c.Check(n == 1, "one-exit", nil, f, "IsEmpty has one result expression", fmt.Sprintf("%d", n))
+	// the expiry decision of a partition consults every consumer group
+	ie := c.Fn("replica.partition.IsExpire")
+	em := c.One(ie, invokeOn("", "IsEmpty"), "consumerGroup.IsEmpty()")
+	names := c.One(ie, invokeOn(".log", "ConsumerGroupNames"), "log.ConsumerGroupNames()")
+	c.Check(eng.DependsOn(eng.CallRecv(em.Instr.(*ssa.Call)), func(x ssa.Value) bool { return x == names.Instr.(ssa.Value) }), "every-group-asked", em.Instr, ie, "each consumer group of the log is asked", "")
+	early := 0
+	for _, e := range eng.EarlyLoopExits(ie) {
+		_ = e
+		early++
+	}
+	c.Check(early == 0, "no-group-skipped", nil, ie, "the loop over the consumer groups has no early exit", fmt.Sprintf("%d early exits", early))
+	expiryNeedsEveryGroupDrained(c)
+	for i, r := range eng.SuccessReturns(ie) {
+		rv := eng.RetVal(r, 0)
+		if k, isC := rv.(*ssa.Const); isC && k.Value != nil && k.Value.String() == "false" {
+			continue
+		}
+		c.Check(eng.DominatedBy(ie, r, []eng.Site{names}, nil), fmt.Sprintf("expired-only-after-asking[%d]", i), r, ie, "a partition is reported expired only after its consumer groups were examined", "")
+	}
 }
